@@ -109,6 +109,8 @@ inline int __getbit2(const unsigned char *B, const int i) {
 inline uint __getbits(const uint *B, const int i1, const int d) {
   qword x, z;
   int i = i1;
+  if (d == 0) // nothing to read: the low array of an all-ones vector has one word
+    return 0;
   B += (i >> logD);
   i &= (D - 1);
   if (i + d <= 2 * (int)D) {
